@@ -121,6 +121,7 @@ class Doc:
     def dangling(self):
         ns = self.namespace()
         out = set()
+        star_req = {}
         for r in self.recs:
             for s in self.seg_mentions(r):
                 if not any(x.rt == "S" for x in ns.get(s, [])):
@@ -130,8 +131,20 @@ class Doc:
                     out.add(s)
             if r.rt == "P" and self.version == "gfa1":
                 for lk in self.path_links(r):
-                    if not self.find_links(*lk):
+                    found = self.find_links(*lk)
+                    if not found:
                         out.add("link:%s%s>%s%s" % lk[:4])
+                    elif lk[4] != "*" and all(q.pos[4] == "*" for q, _d in found):
+                        # only links with an unspecified overlap answer this requirement
+                        a, b = gtext.link_forms(lk)
+                        key = frozenset([a[:4], b[:4]])
+                        ovs = star_req.setdefault(key, set())
+                        ovs.add(a[4] if a[:4] <= b[:4] else b[4])
+        for key, ovs in star_req.items():
+            if len(ovs) > 1:
+                # paths ask for links with *different* overlaps between the same two ends and the document only
+                # has links whose overlap is '*': whether one such link stands for all of them is not specified
+                out.add("link-with-unspecified-overlap-for-several-overlaps")
         return out
 
     def settled(self):
